@@ -263,6 +263,22 @@ CHECKS["C18"] = dict(
               "and Lean evaluator vs crypto/sha256), not proved; round functions tied by oracle and source facts (no EC "
               "arithmetic in Lean); crypto/elliptic trusted.")
 
+CHECKS["C12"] = dict(
+    category="proof", design_ref="DESIGN.md section 2 / C12",
+    technique="Lean 4 executable model of mpa.Int (int64 small path on BitVec 64, arithmetic large path) and of the folding path (literal -> Constant -> cast -> Unary/Binary.evalConst -> constant wires) with operator theorems for all widths <= 64 + differential correspondence on the mpa API, folded SSA constants and circuit results + implementation-side oracle (constant variant vs run-time variant of each expression)",
+    text=("For - * & | ^ &^ << and unary -, folding equals the circuit mod 2^N for every N <= 64 and all operand constants "
+          "(for + / % >> and the comparisons under named hypotheses), also proved end to end on the program text for "
+          "non-negative operands; no model panic branch is reachable for N <= 64. The full statement is refuted by "
+          "root-cause witnesses that the oracle re-derives on the real compiler on every run (signed / % >> on masked "
+          "operands, comparison sign taken from value size, Add carry loss, result typed by value size, T(-v) not extended; "
+          "for N > 64 an add/sub compiler panic, a signed divider at operand size, wrong compare sign, logical shift; "
+          "constants aliased by value name): known findings, each matched narrowly by (signature, violated hypothesis, "
+          "model-predicts-it). Oracle: for generated (op, type intN/uintN N in 1..130, values, 13/5 consumers) compile the "
+          "constant and the run-time variant, confirm folding in the SSA, compare Circuit.Compute outputs; compiler panics "
+          "are recovered and reported."),
+    note=TB + "Theorems are about Model/Fold.lean and Model/Mpa.lean tied by line-by-line correspondence; N > 64 and non-return "
+              "consumers are covered by correspondence and oracle only; builder semantics taken from C07.")
+
 NOT_YET = {}
 
 PROPS = [json.loads(l)["id"] for l in open(os.path.join(VERIF, "properties.jsonl"))]
